@@ -87,6 +87,8 @@ class Interp:
                 oarr = p.fresh(hint + "_ord", z3.ArraySort(z3.IntSort(), t.k.sort()))
                 v.order = VSeq(oarr, card, t.k, "list")
             self.assume_wf_map(v)
+            if getattr(t, "default_zero", False):
+                v.default_e = z3.RealVal(0) if t.v is TReal else z3.IntVal(0)
             return v
         if isinstance(t, TSet):
             dom = p.fresh(hint + "_dom", z3.ArraySort(t.k.sort(), z3.BoolSort()))
@@ -105,7 +107,15 @@ class Interp:
             inner = self.fresh_value(t.inner, hint)
             return VOptObj(p.fresh(hint + "_present", z3.BoolSort()), inner)
         if isinstance(t, TDictRec):
-            return VDictRec({k: self.fresh_field(ft, "%s_%s" % (hint, k)) for k, ft in t.fields.items()})
+            # a field declared as "key?" may be absent: its presence is decided by forking (both shapes are explored)
+            fs = {}
+            for k, ft in t.fields.items():
+                if k.endswith("?"):
+                    k = k[:-1]
+                    if not p.branch(p.fresh("%s_has_%s" % (hint, k), z3.BoolSort())):
+                        continue
+                fs[k] = self.fresh_field(ft, "%s_%s" % (hint, k))
+            return VDictRec(fs)
         raise Unsupported("fresh of %s" % (t,))
 
     def fresh_field(self, ft, hint):
@@ -120,6 +130,8 @@ class Interp:
             facts.append(t.dt.n(e) >= 0)
         elif isinstance(t, (TMap, TSet)):
             facts.append(t.dt.card(e) >= 0)
+            k = z3.Const("wf_k", t.k.sort())
+            facts.append((t.dt.card(e) == 0) == z3.ForAll([k], z3.Not(z3.Select(t.dt.dom(e), k))))
         elif isinstance(t, TTuple):
             for i, et in enumerate(t.elems):
                 if isinstance(et, (TList, TMap, TSet)):
@@ -221,6 +233,8 @@ class Interp:
             for a in ("aggs",):
                 if hasattr(v, a):
                     setattr(c, a, dict(getattr(v, a)))
+            if getattr(v, "default_e", None) is not None:
+                c.default_e = v.default_e
         elif isinstance(v, VSet):
             c = VSet(v.dom, v.card, v.kt)
         elif isinstance(v, VObj):
@@ -321,6 +335,10 @@ class Interp:
                 r = self.call_method_ast(v, "__len__", [], {})
                 return self.truth(r)
             return z3.BoolVal(True)
+        if isinstance(v, VRec) and getattr(v.t, "dictshape", False):
+            if any(k not in v.t.optkeys for k in v.fields):
+                return z3.BoolVal(True)
+            return z3.Or([z3.Not(f.is_none()) for f in v.fields.values()] + [z3.BoolVal(False)])
         if isinstance(v, VRec) and getattr(v.t, "dictlike", False):
             # a dict value is truthy iff it has at least one key
             keys = [k for k in v.fields if not k.startswith("has_")]
@@ -476,6 +494,11 @@ class Interp:
             return self._lex(a.items, b.items, strict)
         if isinstance(a, VUn) and isinstance(b, VUn) and a.t == b.t:
             f = self.ver.order_fn(a.t)
+            if not getattr(self.path, "_ord_ax_" + a.t.nm, False):
+                # comparable opaque keys: `le_<sort>` is a total order (reflexive, total, antisymmetric, transitive)
+                setattr(self.path, "_ord_ax_" + a.t.nm, True)
+                for ax in self.ver.order_axioms(a.t):
+                    self.path.assume(ax)
             return f(a.e, b.e) if not strict else z3.And(f(a.e, b.e), a.e != b.e)
         if self.spec:
             raise Unsupported("ordering of %s and %s" % (type(a).__name__, type(b).__name__))
@@ -629,7 +652,79 @@ class Interp:
     def default_of(self, t):
         return z3.Const("dflt_" + "".join(c if c.isalnum() else "_" for c in t.name), t.sort())
 
+    def _keyrec_with_unpacked(self, n, env, first):
+        """{**rec, "k": v, ...} for R.keyrec records (Optional-encoded optional keys)"""
+        vals = {}
+        for k, v in zip(n.keys, n.values):
+            if k is None:
+                src = first if v is n.values[0] else self.force(self.ev(v, env))
+                if not (isinstance(src, VRec) and getattr(src.t, "dictshape", False)):
+                    raise Unsupported("dict unpacking of %s next to a keyrec" % type(src).__name__)
+                for fn, fv in src.fields.items():
+                    vals[fn] = (fv, fn in src.t.optkeys)
+            else:
+                c = const_of(self.ev(k, env))
+                if not isinstance(c, str):
+                    raise Unsupported("dict literal with symbolic keys")
+                vals[c] = (self.ev(v, env), False)
+        cands = [t for t in self.ver.types.named.values()
+                 if isinstance(t, TRec) and getattr(t, "dictshape", False) and set(t.fields) == set(vals)]
+        if len(cands) != 1:
+            raise Unsupported("dict unpacking literal: %d declared keyrecs have the keys %s" % (len(cands), sorted(vals)))
+        t = cands[0]
+        out = {}
+        for fn, ft in t.fields.items():
+            v, maybe_absent = vals[fn]
+            if maybe_absent:
+                if fn not in t.optkeys or not isinstance(v, VOpt) or v.t != ft:
+                    raise Unsupported("dict unpacking literal: optional key %s does not line up with %s" % (fn, t.nm))
+                out[fn] = v
+            elif fn in t.optkeys:
+                out[fn] = ft.wrap(ft.some(unwrap(v, ft.inner)))
+            else:
+                out[fn] = ft.wrap(unwrap(v, ft))
+        return VRec(out, t)
+
+    def _dict_with_unpacked_record(self, n, env):
+        """{**rec, "k": v, ...} where rec is a dict-shaped record: the result is the declared dict-shaped record type
+        whose key set is exactly the union (later keys override earlier ones, as in python)."""
+        vals = {}
+        for k, v in zip(n.keys, n.values):
+            if k is None:
+                src = self.ev(v, env)
+                if not self.spec:
+                    src = self.force(src)
+                if isinstance(src, VRec) and getattr(src.t, "dictshape", False):
+                    return self._keyrec_with_unpacked(n, env, src)
+                if isinstance(src, VDRec):
+                    for fn in src.t.fields:
+                        vals[fn] = (src.field(fn), src.has(fn) if fn in src.t.optional else None)
+                elif isinstance(src, VDictRec):
+                    for fn, fv in src.fields.items():
+                        vals[fn] = (fv, None)
+                else:
+                    raise Unsupported("dict unpacking of %s" % type(src).__name__)
+            else:
+                c = const_of(self.ev(k, env))
+                if not isinstance(c, str):
+                    raise Unsupported("dict literal with symbolic keys")
+                vals[c] = (self.ev(v, env), None)
+        cands = [t for t in self.ver.types.named.values() if isinstance(t, TDRec) and set(t.fields) == set(vals)
+                 and all(fn in t.optional for fn, (_, pres) in vals.items() if pres is not None)]
+        if len(cands) != 1:
+            raise Unsupported("dict unpacking literal: %d declared dict-shaped records have the keys %s" % (len(cands), sorted(vals)))
+        t = cands[0]
+        zv, present = {}, {}
+        for fn, ft in t.fields.items():
+            v, pres = vals[fn]
+            zv[fn] = unwrap(v, ft)
+            if fn in t.optional:
+                present[fn] = pres if pres is not None else z3.BoolVal(True)
+        return t.wrap(t.mk(zv, present))
+
     def ev_Dict(self, n, env):
+        if any(k is None for k in n.keys):
+            return self._dict_with_unpacked_record(n, env)
         keys = []
         for k in n.keys:
             if k is None:
@@ -874,7 +969,11 @@ class Interp:
             sf = getattr(self, "spec_" + n.func.id, None)
             if sf is not None and self.spec:
                 return sf(n, env)
-        # locals() membership idiom
+        # locals() idiom: a read-only view of the current function's local names (see builtins.VLocals)
+        if isinstance(n.func, ast.Name) and n.func.id == "locals" and not n.args and not self.spec and env.lookup("locals") is None:
+            from . import builtins as B
+            fnode = self.fn_stack[-1].node if getattr(self, "fn_stack", None) else None
+            return B.VLocals(env, fnode)
         f = self.ev(n.func, env)
         args = []
         for a in n.args:
@@ -1238,6 +1337,20 @@ class Interp:
     def spec_truthy(self, n, env):
         return VBool(self.truth(self.ev(n.args[0], env)))
 
+    def spec_trig(self, n, env):
+        """trig(i): a trigger marker, *defined* as True (axiom assumed on the path).  Writing
+        `forall(i, 0 <= i < n and trig(i), exists(p, ..., xs[p] == i))` gives the clause a usable E-matching
+        pattern on the bare bound integer: a goal of the same shape is negated to a skolem constant i0 with
+        trig(i0), which instantiates every assumed trig-marked clause at i0 (a skolemised `exists` under `forall`
+        has no other term mentioning only i)."""
+        v = self.ev(n.args[0], env)
+        f = z3.Function("trig_mark", z3.IntSort(), z3.BoolSort())
+        if not getattr(self.path, "_trig_axiom", False):
+            self.path._trig_axiom = True
+            x = z3.Int("tm_x")
+            self.path.assume(z3.ForAll([x], f(x), patterns=[f(x)]))
+        return VBool(f(to_int(v)))
+
     def spec_to_real(self, n, env):
         return VReal(to_real(self.ev(n.args[0], env)))
 
@@ -1591,7 +1704,11 @@ class Interp:
         if isinstance(v, VEmptyList) and isinstance(lt, TList):
             return VSeq(z3.K(z3.IntSort(), self.default_of(lt.elem)), z3.IntVal(0), lt.elem, lt.kind)
         if isinstance(v, VDictRec) and not v.fields and isinstance(lt, TMap):
-            return self.empty_map(lt)
+            m = self.empty_map(lt)
+            dflt = getattr(v, "default_value", None)
+            if dflt is not None:
+                m.default_e = unwrap(dflt, lt.v)     # collections.defaultdict(float|int): missing keys read as 0
+            return m
         if lt.name in ("JObj", "JList"):
             return self.coerce_value(v, lt)
         if isinstance(v, VEmptySet) and isinstance(lt, TSet):
@@ -2105,7 +2222,17 @@ class Interp:
                             elif cur is not None:
                                 base.fields[node.attr] = self.havoc_like(cur, "lm_" + node.attr)
                             continue
-                    v = self.ev(node, env)
+                    try:
+                        v = self.ev(node, env)
+                    except Unsupported:
+                        # the mutated path mentions a name that is only bound inside the body (e.g.
+                        # `d.setdefault(k, []).append(x)` with k assigned in the loop): havoc the whole root container
+                        r2 = node
+                        while isinstance(r2, (ast.Attribute, ast.Subscript, ast.Call)):
+                            r2 = r2.func if isinstance(r2, ast.Call) else r2.value
+                        v = env.lookup(r2.id) if isinstance(r2, ast.Name) else None
+                        if v is None:
+                            raise
                 finally:
                     self.spec = saved
                 if isinstance(v, (VSeq, VMap, VSet, VObj, VDictRec)):
